@@ -193,6 +193,20 @@ def run(ctx):
             go("after_capabilities", s, caps=frame)
         for _ in range(30):
             go("after_capabilities", rand_state(rng), caps=frame)
+    # pairs of fields at their boundary values (a change that shows only when TWO fields sit at an edge together)
+    bounds = {"temp": [26, 27, 33, 34, 35, 60, 61, 62, 63, 86, 87], "fan": [0, 1, 2, 100, 101, 102, 103, 127, 128, 254, 255],
+              "hum": [0, 1, 63, 64, 126, 127], "mode": [0, 1, 5, 6, 7], "swing": [0, 3, 12, 15], "aux": [0, 1, 2]}
+    names = list(bounds)
+    for a_i in range(len(names)):
+        for b_i in range(a_i + 1, len(names)):
+            fa, fb = names[a_i], names[b_i]
+            for va in bounds[fa]:
+                for vb in bounds[fb]:
+                    if ctx.tier == "quick" and not (va in (bounds[fa][0], bounds[fa][-1]) or vb in (bounds[fb][0], bounds[fb][-1])):
+                        continue
+                    s = rand_state(rng)
+                    s[fa], s[fb] = va, vb
+                    go("boundary_pairs", s)
     for _ in range(1500 if ctx.tier == "quick" else 30000):
         go("random", rand_state(rng))
 
